@@ -5,7 +5,6 @@
 #include "verif.h"
 #include <gmssl/rand.h>
 #ifdef VERIF_CBMC
-int verif_rb_fail; unsigned verif_rb_calls; const void *verif_rb_buf; size_t verif_rb_len;
 #define G_rb_fail verif_rb_fail
 #define G_rb_calls verif_rb_calls
 #define G_rb_buf verif_rb_buf
@@ -13,7 +12,7 @@ int verif_rb_fail; unsigned verif_rb_calls; const void *verif_rb_buf; size_t ver
 #endif
 #ifndef CONTRACT_RAND_BYTES_ENFORCE
 int rand_bytes(uint8_t *buf, size_t len)
-REQUIRES(buf == NULL || len == 0 || len > 256 || W_OK(buf, len))
+REQUIRES(buf == NULL || len == 0 || len > 256 || WR_OK(buf, len))
 ASSIGNS(buf != NULL && len >= 1 && len <= 256: OBJ_UPTO(buf, len); G_rb_fail, G_rb_calls, G_rb_buf, G_rb_len)
 ENSURES(RET == 1 || RET == -1)
 ENSURES((buf == NULL || len == 0 || len > 256) IMPLIES RET == -1)
